@@ -77,10 +77,31 @@ def gen_chain(rng, tier):
         st = gen_chain_stack(rng)
         yield ' '.join(st) + ' ;; ' + ' ; '.join(gen_ops(rng, rng.choice([10, 25, 50]), False, st))
 
+def vec_wrap(rng, st):
+    """a run of two or more neighbouring layers put into ONE `Vec` subscriber (`[ … ]`): the same layers in the same order"""
+    units = []; i = 0
+    while i < len(st):
+        if st[i][0] == 'F' and st[i][1:].isdigit():
+            j = st.index('.', i); units.append(st[i:j + 1]); i = j + 1
+        else:
+            units.append([st[i]]); i += 1
+    if len(units) < 2: return st
+    a = rng.randrange(len(units) - 1); b = rng.randrange(a + 2, len(units) + 1)
+    out = []
+    for k, u in enumerate(units):
+        if k == a: out.append('[')
+        out += u
+        if k == b - 1: out.append(']')
+    return out
+
+def strip_vec(case):
+    return ' '.join(t for t in case.split(' ') if t not in ('[', ']'))
+
 def gen(rng, tier):
     n = 1000 if tier == 'quick' else 20000
     for _ in range(n):
         st = gen_stack(rng)
+        if rng.random() < 0.25: st = vec_wrap(rng, st)
         yield ' '.join(st) + ' ;; ' + ' ; '.join(gen_ops(rng, rng.choice([10, 25, 50]), False, st))
 
 def gen_probe(rng, tier):
@@ -162,6 +183,7 @@ def _span_index_safe(op):
     return op.startswith('sp ')
 
 _a = Stream('hist', 'h_layers', gen=gen, nontrivial=nontrivial, spec_mode='spec')
+_a.model_case = strip_vec
 _b = Stream('probe', 'h_layers', gen=gen_probe, nontrivial=nontrivial, spec_mode='spec')
 _c = Stream('chain', 'h_chain', mode='modelchain', gen=gen_chain, nontrivial=nontrivial, spec_mode='spec')
 _l = Stream('lookup', 'h_lookup', mode='modellookup', gen=gen_lookup, nontrivial=nontrivial_lookup, spec_mode='speclookup')
